@@ -145,7 +145,7 @@ def classify_params(f):
             res.append(("out", t[:-1].strip(), name))
         elif re.match(r"^(double|int|bool|size_t)\s*&?$", t):
             res.append(("val", t.rstrip("&").strip(), name))
-        elif re.match(r"^[A-Z]\w*\s*&?$", t):
+        elif re.match(r"^[A-Z]\w*(<\w+>)?\s*&?$", t):
             base = t.rstrip("&").strip()
             res.append(("obj", base, name))
         elif re.match(r"^T\s*\*$", t) or re.match(r"^double\s*\*$", t):
